@@ -74,7 +74,7 @@ func (r ReceptionReport) Marshal() ([]byte, error) {
 	rawPacket[fractionLostOffset] = r.FractionLost
 
 	// pack TotalLost into 24 bits
-	if r.TotalLost >= (1 << 25) {
+	if r.TotalLost >= (1 << 24) {
 		return nil, errInvalidTotalLost
 	}
 	tlBytes := rawPacket[totalLostOffset:]
